@@ -40,36 +40,47 @@ TRUSTED = [
     "`destinations * 100` in list_of_destinations_from_last_segment is modelled as unbounded cyclic repetition",
     "recursion depth: the model enumerates with fuel 400 (paths of more than 400 visits are reported as err on both sides only if Python also raises)",
     "the abstract part sent to the model is read from the real objects by this module (kind by isinstance, start/end, referential attributes)",
+    "that a real part is an instance of a layout family of the theorems (chainLayout, mvLayout, dcFineLayout, dcCodaLayout, dsCodaLayout) is "
+    "decided twice, by the model (`fam` request: equality with the family's layout plus every hypothesis of the layout theorem) and by "
+    "family_of() in this module from the musical description; the two answers are compared on every case, not proved equal",
 ]
 PARTIAL = [
-    "simple_repeats is proved for all r over the chain segment tables (2^r paths, maximal/minimal, termination with fuel 2n+1); that add_segments "
-    "builds exactly these tables is proved by evaluation for all layouts of up to 4 sections on a grid (simple_repeats_layout_partial) and compared "
-    "on every generated layout, not proved for symbolic boundary times",
-    "voltas is proved for every k over the segment tables of a repeat with k single-number brackets (maximal = section+ending i on pass i, "
-    "minimal = section+last ending, fuel 2k+4); that add_segments builds these tables is proved by evaluation for k <= 3 on a grid "
-    "(voltas_layout_partial); brackets carrying two numbers are covered by the finite table voltas_upto3_partial (k <= 3) and the correspondence",
-    "termination of the enumeration is proved for the chain and volta families only; for arbitrary tables only fuel-monotonicity (a result never depends on "
-    "the fuel) is proved - the code itself recurses without bound on tables with a forced backward jump",
-    "ids_suffixed_partial: the suffix is the rank among same-id notes by onset; that this rank is the visit number of the note's segment is "
-    "compared and checked by the oracle, not proved",
+    "layout theorems (simple_repeats_layout, voltas_numbers_layout, voltas_layout, dacapo_al_fine, dacapo_al_coda, dalsegno_al_coda) hold for "
+    "symbolic boundary times of the stated families; other layouts (nested repeats with endings, several volta groups, marks combined with "
+    "repeats) have the general theorems (walks, copies, references, termination for repeat-only parts) and the correspondence only",
+    "voltas_numbers_layout: the numbers on a bracket are written in increasing order, every bracket carries a number, the last number is on the "
+    "last bracket, at most 9 numbers (one decimal digit), the repeat starts at a time >= 0 (the code initialises current_volta_repeat_start "
+    "with 0 and takes max()), a repeat sign after every bracket but the last",
+    "termination: proved for every table of the class RepForm (successor preceded by at most one destination that is not ahead) - which is what "
+    "add_segments builds for ANY set of repeats (repeats_terminate) - in all three modes with fuel 2^(n+1), and for the volta and navigation "
+    "families in maximal/minimal mode with explicit fuel; not proved for arbitrary tables: enumeration_may_not_terminate exhibits a table "
+    "(built by the unrepaired code for a da capo in the middle of a part) on which the minimal enumeration fails for every fuel",
+    "ids_suffixed needs unique note ids in the original part (with duplicate ids the code ranks all same-id notes together; compared only)",
     "length_sum assumes a part well formed for its segmentation (no copied object reaches beyond its segment, something ends at the end of the "
     "last visited segment); otherwise the code keeps the overhanging end and the model mirrors it",
     "signatures and clefs are outside copies_per_visit (copied only when different from the previous one; mirrored by sigSkip and compared)",
     "ending numbers >= 10 are outside the model (Layout.supported): the code cuts 8 characters off '<n>_Volta_<ID>' and then fails",
-    "musical correctness of the segment graph for navigation marks is not claimed (walk validity is relative to the graph the code builds); "
-    "`'END' <= chr(65+i)` makes END count as a jump to the past for segments F and later (mirrored by Dest.lePast)",
+    "navigation marks: the maximal path is proved for D.C. al Fine, D.C. al Coda, D.S. al Coda (segno after the start) over symbolic times and "
+    "checked by the independent oracle for these and for D.C., D.S., D.S. al Fine, D.C./D.S. before the end of the part; other arrangements of "
+    "marks (several jumps, marks inside repeats) are compared only; `'END' <= chr(65+i)` makes END count as a jump to the past for segments "
+    "F and later (mirrored by Dest.lePast); the first segment is a leap destination only when the part starts at time 0 (`ss == 0`)",
     "Fermata.ref / Note.fermata / Beam references are not in the property's list of references and are not remapped by the code",
 ]
 RULE = ("parts from gen_score.random_part_desc (3-10 bars, ties over barlines, signature/clef/division changes) with a generated "
         "repeat structure at bar lines: 0-4 laminar repeats, volta groups with 1-3 brackets and single or comma-separated numbers, "
         "one of 9 navigation forms (da capo, fine, dal segno, segno, coda, to-coda, malformed), slurs/tuplets inside and across "
-        "boundaries, fermatas, pages/systems; each with 1-3 (policy, update_ids, ignore_leaps) combinations; plus the six unfold "
-        "fixtures of tests/data/musicxml.  distinct = distinct (segment table, policy flags); non-trivial = at least one repeat, ending or mark")
-LEVEL_TEXT = ("Lean theorems about the executable model of segment construction, path enumeration and segment copying "
-              "(walks, length sum, copies per visit, nothing left, closed references, 2^r variants, volta order, identity), "
-              "tied to partitura by running the model and the real unfold functions on the same generated parts and comparing "
-              "segment tables, path lists and every copied object; an independent oracle re-checks the property clauses on the "
-              "implementation's output.")
+        "boundaries, fermatas, pages/systems; each with 1-3 (policy, update_ids, ignore_leaps) combinations; shape cases of the theorem "
+        "families (r disjoint repeats, one repeat with k brackets, the 9 standard navigation forms D.C./D.S. (al Fine / al Coda / before "
+        "the end)); plus the six unfold fixtures of tests/data/musicxml.  distinct = distinct (segment table, policy flags); "
+        "non-trivial = at least one repeat, ending or mark")
+LEVEL_TEXT = ("Lean theorems about the executable model of segment construction, path enumeration and segment copying: for every "
+              "table - walks, length sum, copies per visit, nothing left, closed references, id suffix = visit number; at the layout "
+              "level for symbolic boundary times - r disjoint repeats give the chain table (2^r variants, maximal/minimal), one repeat "
+              "with k brackets carrying any assignment of 1..N gives the volta table (pass n takes the bracket of number n), D.C. al "
+              "Fine / D.C. al Coda / D.S. al Coda; termination of the enumeration for every part whose only structure is repeats. "
+              "Tied to partitura by running the model and the real unfold functions on the same generated parts and comparing segment "
+              "tables, family membership, path lists and every copied object; an independent oracle re-checks the property clauses "
+              "(incl. the maximal path of the standard repeat, volta and navigation forms) on the implementation's output.")
 
 REPO = os.environ.get("VERIF_REPO", "/repo")
 FIXTURES = ["test_unfold_timeline.xml", "test_unfold_complex.xml", "test_unfold_volta_numbers.xml",
@@ -276,9 +287,42 @@ def shape_case(rng, kind):
                 ex.append(["Ending", times[s], times[e], {"number": nums[b]}])
                 if b < k - 1 or k == 1:
                     ex.append(["Repeat", times[i], times[e], {}])
+    elif kind == "nav" and nm >= 4:
+        # the standard navigation forms, nothing else in the part
+        form = rng.choice(["dc", "dcfine", "ds", "dsfine", "dccoda", "dscoda", "dscoda", "dcmid", "dsmid"])
+        if form == "dc":
+            ex.append(["DaCapo", times[nm], None, {}])
+        elif form == "dcfine":
+            ex.append(["Fine", times[rng.randint(1, nm - 1)], None, {}])
+            ex.append(["DaCapo", times[nm], None, {}])
+        elif form == "ds":
+            ex.append(["Segno", times[rng.randint(0, nm - 1)], None, {}])
+            ex.append(["DalSegno", times[nm], None, {}])
+        elif form == "dsfine":
+            s_ = rng.randint(0, nm - 2)
+            ex.append(["Segno", times[s_], None, {}])
+            ex.append(["Fine", times[rng.randint(s_ + 1, nm - 1)], None, {}])
+            ex.append(["DalSegno", times[nm], None, {}])
+        elif form == "dccoda":
+            a = rng.randint(1, nm - 2)
+            b = rng.randint(a + 1, nm - 1)
+            ex += [["ToCoda", times[a], None, {}], ["DaCapo", times[b], None, {}], ["Coda", times[b], None, {}]]
+        elif form == "dcmid":
+            ex.append(["DaCapo", times[rng.randint(1, nm - 1)], None, {}])
+        elif form == "dsmid":
+            b = rng.randint(1, nm - 1)
+            ex += [["Segno", times[rng.randint(0, b - 1)], None, {}], ["DalSegno", times[b], None, {}]]
+        else:
+            s_ = rng.randint(0, nm - 3)
+            a = rng.randint(s_ + 1, nm - 2)
+            b = rng.randint(a + 1, nm - 1)
+            ex += [["Segno", times[s_], None, {}], ["ToCoda", times[a], None, {}], ["DalSegno", times[b], None, {}],
+                   ["Coda", times[b], None, {}]]
     d["extras"] = ex
     pols = [{"pol": "max", "upd": True, "il": True, "pick": [0, 0]}, {"pol": "min", "upd": False, "il": True, "pick": [0, 0]},
             {"pol": "all", "upd": rng.random() < 0.5, "il": True, "pick": [rng.random(), rng.random()]}]
+    if kind == "nav":
+        pols.append({"pol": "max", "upd": False, "il": False, "pick": [0, 0]})
     return {"k": "gen", "part": d, "pols": pols}
 
 
@@ -299,6 +343,8 @@ def cases(rng, tier):
             yield shape_case(rng, "volta")
         elif r < 0.28:
             yield shape_case(rng, "none")
+        elif r < 0.36:
+            yield shape_case(rng, "nav")
         else:
             yield gen_case(rng, big=(tier != "quick" and rng.random() < 0.2))
 
@@ -726,16 +772,37 @@ def simple_layout(L):
     return reps
 
 
-def dacapo_fine_layout(L):
-    """the part starts at 0, a DaCapo at the last time point, at most one Fine strictly inside, nothing else:
-    returns the time of the Fine (or None when there is none) wrapped in a tuple, else None"""
-    if L["repeats"] or L["endings"] or L["codas"] or L["tocodas"] or L["segnos"] or L["dalsegnos"]:
+def nav_layout(L):
+    """the standard navigation forms in a part that starts at 0 and has no repeats and no endings:
+    returns (name, [(from, to)] = the stretches of time in the order they are played), else None.
+      D.C. (al Fine)      DaCapo at the end, at most one Fine strictly inside
+      D.S. (al Fine)      DalSegno at the end, one Segno before it, at most one Fine strictly between them
+      D.C. / D.S. before the end of the part, no Fine, no Coda (obeyed once, then on to the end)
+      D.C. al Coda        ToCoda at a, DaCapo and Coda at b, 0 < a < b < end
+      D.S. al Coda        Segno at s, ToCoda at a, DalSegno and Coda at b, 0 <= s < a < b < end"""
+    if L["repeats"] or L["endings"] or L["first"] != 0 or not L["first"] < L["last"]:
         return None
-    if L["first"] != 0 or L["dacapos"] != [L["last"]] or len(L["fines"]) > 1:
-        return None
-    if L["fines"] and not (L["first"] < L["fines"][0] < L["last"]):
-        return None
-    return (L["fines"][0] if L["fines"] else None,)
+    end = L["last"]
+    dc, ds, sg, fi, co, tc = L["dacapos"], L["dalsegnos"], L["segnos"], L["fines"], L["codas"], L["tocodas"]
+    if dc == [end] and not (ds or sg or co or tc) and len(fi) <= 1:
+        if fi and not 0 < fi[0] < end:
+            return None
+        return ("dc-fine" if fi else "dc"), [(0, end), (0, fi[0] if fi else end)]
+    if ds == [end] and len(sg) == 1 and not (dc or co or tc) and len(fi) <= 1 and 0 <= sg[0] < end:
+        if fi and not sg[0] < fi[0] < end:
+            return None
+        return ("ds-fine" if fi else "ds"), [(0, end), (sg[0], fi[0] if fi else end)]
+    # the jump instruction stands before the end of the part and nothing tells where to stop: it is obeyed once,
+    # then the part is played through to its end
+    if len(dc) == 1 and 0 < dc[0] < end and not (ds or sg or co or tc or fi):
+        return "dc-mid", [(0, dc[0]), (0, end)]
+    if len(ds) == 1 and len(sg) == 1 and 0 <= sg[0] < ds[0] < end and not (dc or co or tc or fi):
+        return "ds-mid", [(0, ds[0]), (sg[0], end)]
+    if len(dc) == 1 and co == dc and len(tc) == 1 and not (ds or sg or fi) and 0 < tc[0] < dc[0] < end:
+        return "dc-coda", [(0, dc[0]), (0, tc[0]), (dc[0], end)]
+    if len(ds) == 1 and co == ds and len(tc) == 1 and len(sg) == 1 and not (dc or fi) and 0 <= sg[0] < tc[0] < ds[0] < end:
+        return "ds-coda", [(0, ds[0]), (sg[0], tc[0]), (ds[0], end)]
+    return None
 
 
 def volta_layout(L):
@@ -762,6 +829,59 @@ def volta_layout(L):
     if ends[-1][1] > L["last"]:
         return None
     return a, [(s, e) for s, e, _ in ends], [ns for _, _, ns in ends]
+
+
+def family_of(L):
+    """which layout family of the Lean theorems (Props/C09Ext.lean) the part belongs to, decided from the musical
+    description (independently of the Lean definitions `chainLayout`, `mvLayout`, `dcFineLayout`, ... - the driver's
+    `fam` request must give the same answer):
+      chain <flags>             only repeats, each spanning exactly one section between consecutive boundaries, listed in
+                                time order (simple_repeats_layout)
+      volta <pre> <k> <post> <asg>   one repeated section with k consecutive brackets carrying 1..N (voltas_numbers_layout)
+      dc-fine | dc-coda | ds-coda    the navigation forms with symbolic-time theorems
+      none"""
+    nav_keys = ("codas", "tocodas", "dacapos", "fines", "segnos", "dalsegnos")
+    marks = any(L[k_] for k_ in nav_keys)
+    first, last = L["first"], L["last"]
+    if not L["endings"] and not marks:
+        ts = sorted(set([first, last] + [t for r in L["repeats"] for t in r]))
+        secs = list(zip(ts[:-1], ts[1:]))
+        flags = [sec in L["repeats"] for sec in secs]
+        if (secs and ts[0] == first and ts[-1] == last and L["repeats"] == [sec for sec, f in zip(secs, flags) if f]
+                and not any(not f and not g for f, g in zip(flags[:-1], flags[1:]))):
+            return "chain " + ",".join("1" if f else "0" for f in flags)
+        return "none"
+    if L["endings"] and not marks and L["repeats"]:
+        ends = L["endings"]
+        k = len(ends)
+        if not 1 <= k <= 10:
+            return "none"
+        if any(e != s2 for (_, e, _), (s2, _, _) in zip(ends[:-1], ends[1:])) or any(not s_ < e for s_, e, _ in ends):
+            return "none"
+        numbers = [n for _, _, ns in ends for n in ns]
+        N = len(numbers)
+        if sorted(numbers) != list(range(1, N + 1)) or N > 9 or any(list(ns) != sorted(ns) for _, _, ns in ends):
+            return "none"
+        if N not in ends[-1][2]:
+            return "none"
+        a = L["repeats"][0][0]
+        want_ends = [ends[0][1]] if k == 1 else [e for _, e, _ in ends[:-1]]
+        if L["repeats"] != [(a, e) for e in want_ends]:
+            return "none"
+        v0, vk = ends[0][0], ends[-1][1]
+        if not (0 <= a < v0 and first <= a and vk <= last):
+            return "none"
+        asg = [next(j for j, (_, _, ns) in enumerate(ends) if n in ns) for n in range(1, N + 1)]
+        return "volta %d %d %d %s" % (int(first < a), k, int(vk < last), ",".join(str(x) for x in asg))
+    if not L["repeats"] and not L["endings"] and first == 0:
+        dc, ds, sg, fi, co, tc = L["dacapos"], L["dalsegnos"], L["segnos"], L["fines"], L["codas"], L["tocodas"]
+        if dc == [last] and len(fi) == 1 and not (ds or sg or co or tc) and 0 < fi[0] < last:
+            return "dc-fine"
+        if len(dc) == 1 and co == dc and len(tc) == 1 and not (ds or sg or fi) and 0 < tc[0] < dc[0] < last:
+            return "dc-coda"
+        if len(ds) == 1 and co == ds and len(tc) == 1 and len(sg) == 1 and not (dc or fi) and 0 < sg[0] < tc[0] < ds[0] < last:
+            return "ds-coda"
+    return "none"
 
 
 # ------------------------------------------------------------------------------ evaluation
@@ -812,11 +932,17 @@ def _evaluate(desc):
         if [(s.start.t, s.end.t) for s in segs] != list(zip(bt[:-1], bt[1:])):
             ev.oracle.append("segments: the segments are not the intervals between consecutive boundaries %r" % (bt,))
 
+    # ---- which family of the layout theorems the part is an instance of (ties the hypotheses of
+    #      simple_repeats_layout / voltas_numbers_layout / dacapo_al_fine / ... to the real part)
+    ev.requests.append("fam " + ltok)
+    fam = family_of(L)
+    ev.impl.append(fam)
+
     nontrivial = bool(L["repeats"] or L["endings"] or any(L[k] for k in ("codas", "tocodas", "dacapos", "fines", "segnos", "dalsegnos")))
     keyparts = []
     simple = simple_layout(L)
     volta = volta_layout(L)
-    dcfine = dacapo_fine_layout(L)
+    nav = nav_layout(L)
 
     for pi, pol in enumerate(desc["pols"]):
         nr, ar, il = FLAGS[pol["pol"]](pol)
@@ -831,10 +957,10 @@ def _evaluate(desc):
         if e is not None:
             ev.impl.append("err")
             plist = None
-            if (simple is not None or volta is not None or not nontrivial or dcfine is not None) and L["first"] < L["last"]:
+            if (simple is not None or volta is not None or not nontrivial or nav is not None) and L["first"] < L["last"]:
                 ev.oracle.append("raises: %s: get_paths raises %s on a part with %s" % (
                     tagname, type(e).__name__, "simple repeats" if simple is not None else "a standard volta group" if volta is not None
-                    else "da capo al fine" if dcfine is not None else "no repeat structure"))
+                    else "the standard navigation form " + nav[0] if nav is not None else "no repeat structure"))
         else:
             plist = [list(p.path) for p in paths]
             ev.impl.append(W.f_list(lambda p: W.f_list(seg_index, p), plist))
@@ -908,11 +1034,14 @@ def _evaluate(desc):
                     want = pre + body + [br[-1]] + post
                     if plist[:1] != [want]:
                         ev.oracle.append("minimal: voltas: path %r, expected %r (once, with the last ending)" % (plist[:1], want))
-            if dcfine is not None and pol["pol"] in ("max", "score"):
-                # D.C. (al Fine): the whole part, then again from the start up to the Fine (to the end without one)
-                want = ["A", "B", "A"] if dcfine[0] is not None else ["A", "A"]
+            if nav is not None and pol["pol"] in ("max", "score") and psegtab:
+                # the stretches of time in playing order, each as the run of segments that cover it
+                order = sorted(psegtab, key=lambda k_: psegtab[k_][0])
+                want = [k_ for (x, y) in nav[1] for k_ in order if x <= psegtab[k_][0] and psegtab[k_][1] <= y]
                 if plist[:1] != [want]:
-                    ev.oracle.append("maximal: da capo%s: path %r, expected %r" % (" al fine" if dcfine[0] is not None else "", plist[:1], want))
+                    ev.oracle.append("navigation-%s: %s: the maximal path is %s, expected %s (%s)" % (
+                        nav[0], tagname, "-".join(plist[0]) if plist else None, "-".join(want),
+                        ", then ".join("%d..%d" % st_ for st_ in nav[1])))
             if not nontrivial and plist != [["A"]]:
                 ev.oracle.append("identity: no repeat structure but paths are %r" % (plist,))
 
@@ -1035,7 +1164,8 @@ def _evaluate(desc):
     if nontrivial and ev.impl:
         ev.key = "%s|%s" % (ev.impl[0], sorted(set(keyparts)))
     ev.info = {"nseg": 0 if segtab is None else len(segtab), "layout": {k: len(v) if isinstance(v, list) else v for k, v in L.items()},
-               "err": sum(1 for x in ev.impl if x == "err"), "simple": simple is not None, "volta": volta is not None}
+               "err": sum(1 for x in ev.impl if x == "err"), "simple": simple is not None, "volta": volta is not None,
+               "nav": None if nav is None else nav[0], "fam": fam.split(" ")[0]}
     return ev
 
 
@@ -1107,6 +1237,10 @@ def distribution(descs, results):
             c["simple_repeat_layouts"] += 1
         if info.get("volta"):
             c["standard_volta_layouts"] += 1
+        if info.get("nav"):
+            c["navigation_form_" + info["nav"]] += 1
+        if info.get("fam") and info["fam"] != "none":
+            c["theorem_family_" + info["fam"]] += 1
         c["err_observations"] += info.get("err", 0)
         nseg[min(info.get("nseg", 0), 12)] += 1
         if not r.get("requests"):
